@@ -66,11 +66,11 @@ def jobs(tier, seed):
                  functions=["rs_galois_mult", "rs_galois_div", "rs_galois_inverse", "rs_galois_init_tables"],
                  repo_src=[GAL], harness=["harness/native_gf.c"], native={}, timeout=1200, mem_gb=2, weight=10 ** 6))
     nmax = 5 if tier == "thorough" else 3
-    J.append(Job("crc.step", props=["C10", "C09"], layer="L1", strength="Pinf",
+    J.append(Job("crc.step", props=["C10", "C09", "C20"], layer="L1", strength="Pinf",
                  title="liberasurecode_crc32_alt: one step from an arbitrary register == historical sign-extending CRC-32 step (2^40 cases)",
                  functions=["liberasurecode_crc32_alt"], repo_src=[CRC], harness=["harness/k_crc.c"], defines={"MODE": 1}, unwind=10,
                  expect=["C10: one step"]))
-    J.append(Job("crc.short", props=["C10", "C09"], layer="L1", strength="B", bound="buffer length <= %d bytes (all contents)" % nmax,
+    J.append(Job("crc.short", props=["C10", "C09", "C20"], layer="L1", strength="B", bound="buffer length <= %d bytes (all contents)" % nmax,
                  title="liberasurecode_crc32_alt == bit-serial historical CRC-32 for every buffer of length <= %d" % nmax,
                  functions=["liberasurecode_crc32_alt"], repo_src=[CRC], harness=["harness/k_crc.c"], defines={"MODE": 2, "NMAXLEN": nmax}, unwind=10,
                  expect=["C10: liberasurecode_crc32_alt == bit-serial"], timeout=1200))
